@@ -11,6 +11,7 @@ const PLANT: &str = "ɮ";
 pub fn plant(r: &GenRule, variant: usize) -> Option<GenRule> {
     let mut p = r.clone();
     if r.is_insertion() {
+        if variant == 2 { return None; }
         if let Some(x) = p.special.as_mut() { if variant == 0 { x.push(PLANT); } else { x.insert(0, PLANT); } return Some(p); }
         if p.ctx.is_empty() { return None; }
         for e in p.ctx.iter_mut() {
@@ -24,7 +25,9 @@ pub fn plant(r: &GenRule, variant: usize) -> Option<GenRule> {
             }
         }
     } else {
-        for alt in p.ins.iter_mut() { if variant == 0 { alt.push(PLANT); } else { alt.insert(0, PLANT); } }
+        // variant 2: before the last input item (a mandatory item in the middle must count as well)
+        if variant == 2 && p.ins.iter().all(|alt| alt.len() < 2) { return None; }
+        for alt in p.ins.iter_mut() { match variant { 0 => alt.push(PLANT), 1 => alt.insert(0, PLANT), _ => { let at = alt.len().saturating_sub(1); alt.insert(at, PLANT); } } }
     }
     Some(p)
 }
@@ -70,7 +73,7 @@ fn eval_text(text: &str, words: &[(String, CW)], a: &mut Acc) {
 pub fn run() -> i32 {
     let mut r = Report::new("C06");
     let n = if r.thorough() { 4 } else { 3 };
-    r.rule = format!("every rule of rulegen({}) (full documented grammar: sets, optionals, ellipses, structures, variables, alphas, environment sets, special environment, condensed rules) (quick: plus every insertion rule of size 4) with a mandatory literal /ɮ/ planted in every input alternative (insertion: in every context environment), at the end and at the start; plus blank and comment-only lines; x hand-shaped words{}; whenever the call returns Ok the structural word must equal the input. Non-trivial = rule compiled and the call returned Ok.", n, if r.thorough() { " and all decorated words of W(I4,3)" } else { "" });
+    r.rule = format!("every rule of rulegen({}) (full documented grammar: sets, optionals, ellipses, structures, variables, alphas, environment sets, special environment, condensed rules) (quick: plus every insertion rule of size 4) with a mandatory literal /ɮ/ planted in every input alternative (insertion: in every context environment), at the end, at the start and before the last input item; plus blank and comment-only lines; x hand-shaped words{}; whenever the call returns Ok the structural word must equal the input. Non-trivial = rule compiled and the call returned Ok.", n, if r.thorough() { " and all decorated words of W(I4,3)" } else { "" });
     r.assumptions.push("thorough: size-4 rules are restricted to those containing a structure, %, $, an ellipsis, an optional, a variable, or an insertion/deletion/metathesis output (the cursor-logic constructs); all size <= 3 rules are included".into());
     let words = decorated_words(r.thorough());
     let mut bases = rulegen::bases_upto(n);
@@ -82,7 +85,7 @@ pub fn run() -> i32 {
         let (b, rest) = &bases[i];
         for rule in rulegen::expand(b, *rest) {
             if thorough && rule.n_items() == 4 && !rule.has(&["⟨", "%", "$", "...", "(", "=", "*", "&", " 1"]) { continue; }
-            for variant in 0..2 {
+            for variant in 0..3 {
                 let Some(p) = plant(&rule, variant) else { continue };
                 let text = p.text();
                 let k = if p.is_insertion() { "insertion" } else if text.contains("> *") { "deletion" } else if text.contains("> &") { "metathesis" } else { "substitution" };
